@@ -344,6 +344,10 @@ def inheritance_trees(names, rng, enums8, s_static=None):
         p = names.new("Ip")
         out.append(packet(p, [scalar("k", 8), typedef("s", s_static["id"]), count_f("v", 8), array("v", width=16), payload()]))
         out.append(packet(names.new("Ic"), [scalar("z", 8)], parent_id=p, constraints=[constraint("k", 1)]))
+        # ... and seen from a GRANDchild (every level has to hand the array on)
+        mid = names.new("Ic")
+        out.append(packet(mid, [scalar("sub", 8), payload()], parent_id=p, constraints=[constraint("k", 2)]))
+        out.append(packet(names.new("Ig"), [scalar("x", 8)], parent_id=mid, constraints=[constraint("sub", 2)]))
         p = names.new("Ip")
         out.append(packet(p, [scalar("k", 8), array("v", width=8, size=2), typedef("s", s_static["id"])]))
         out.append(packet(names.new("Ic"), [], parent_id=p, constraints=[constraint("k", 2)]))
